@@ -214,6 +214,28 @@ Proof.
     try contradiction; subst; try reflexivity; discriminate Hn.
 Qed.
 
+(* GENERAL, END TO END: on ONE evaluator object, for every history of calls on well-formed motifs (any
+   sizes, roots, phi, u, any interleaving) in which equal names denote equal motifs, EVERY call returns the
+   exact expectation of its own arguments (up to ==), or raises when its root is not a vertex of its motif:
+   C15_history + C15_fresh_value + C15_identity_general. *)
+Theorem C15_history_exact :
+  forall calls : list (call (T:=Q)),
+    distinctly_named calls -> (forall c, In c calls -> wf_graph (c_graph c) = true) ->
+    Forall2 (fun (o : option Q) (c : call (T:=Q)) =>
+               if memb (c_root c) (g_nodes (c_graph c))
+               then exists v, o = Some v /\ (v == expectation (c_graph c) (c_root c) (c_phi c) (c_u c))%Q
+               else o = None)
+            (run_history alg_q caches_empty calls) calls.
+Proof. exact history_exact. Qed.
+Print Assumptions C15_history_exact.
+
+(* non-vacuity: the history of C15_history_nonvacuous consists of well-formed motifs *)
+Example C15_history_exact_nonvacuous :
+  let tri := ([0;1;2], [(0,1);(1,2);(0,2)]) in
+  let path := ([0;1;2], [(0,1);(1,2)]) in
+  wf_graph tri = true /\ wf_graph path = true /\ memb 5 (g_nodes path) = false.
+Proof. vm_compute. repeat split; reflexivity. Qed.
+
 (* GENERAL: the expectation of a product of values in [0,1] lies in [0,1] (used by C17) *)
 Theorem C15_exact_in_unit :
   forall g r (phi : Q) (u : nat -> Q),
